@@ -3,14 +3,14 @@
 # Applies a mutation to a scratch worktree of /repo, runs the named checks against it (outputs under
 # /tmp/xv-mut-out), then restores the worktree. Prints CAUGHT/MISSED per check.
 set -u
-WT=/tmp/wt-mut
+WT=${MUT_WT:-/tmp/wt-mut}
 [ -d "$WT" ] || git -C /repo worktree add --detach "$WT" HEAD >/dev/null 2>&1
 git -C "$WT" checkout -q -- . ; git -C "$WT" checkout -q --detach $(git -C /repo rev-parse HEAD)
 if [ "$1" = "-e" ]; then sed -i "$2" "$WT/$3" || exit 2; shift 3; else git -C "$WT" apply "$1" || exit 2; shift; fi
 [ "$1" = "--" ] && shift
 if git -C "$WT" diff --quiet; then echo "MUTATION DID NOT CHANGE ANYTHING"; exit 2; fi
 git -C "$WT" diff | grep '^[+-]' | grep -v '^+++\|^---' | head -20
-export XV_OUT=/tmp/xv-mut-out; mkdir -p $XV_OUT
+export XV_OUT=${MUT_OUT:-/tmp/xv-mut-out}; mkdir -p $XV_OUT
 for id in "$@"; do
   out=$(XV_REPO=$WT /verif/check $id 2>&1); rc=$?
   if [ $rc -eq 1 ]; then echo "CAUGHT $id: $(echo "$out" | grep -A1 '^VIOLATION' | head -2 | tr '\n' ' ' | cut -c1-400)";
